@@ -304,6 +304,7 @@ class InterpCore:
         return self.is_subclass(exc_cls, handler_type)
 
     def exec_try(self, s, env, run):
+        n_eff = len(run.effects)
         try:
             try:
                 self.exec_block(s.body, env, run)
@@ -312,6 +313,12 @@ class InterpCore:
                     ht = self.ev(h.type, env, run) if h.type is not None else LibClass.get("BaseException")
                     if self.exc_matches(r.cls, ht):
                         run.notes.append(("handled", short_exc(r.cls), self.site(h)))
+                        # the raise was intercepted: its raise-site note does not leave the function
+                        for i in range(len(run.effects) - 1, n_eff - 1, -1):
+                            e = run.effects[i]
+                            if e[0] == "raise-site" and e[1] == short_exc(r.cls):
+                                del run.effects[i]
+                                break
                         if h.name:
                             env.vars[h.name] = r.exc
                         prev = env.vars.get("__current_exception__")
